@@ -2404,8 +2404,11 @@ class ObjectCommand(Command, Generic[so.Object_T]):
                 if (
                     (
                         # Only include fields that are not inherited
-                        # and that have their value actually changed.
+                        # and that have their value actually changed ...
                         not fop.new_inherited
+                        # ... or that have just become inherited
+                        # (an explicit value is being RESET).
+                        or not fop.old_inherited
                         or context.descriptive_mode
                         or self.ast_ignore_ownership()
                         or self.ast_ignore_field_ownership(fop.property)
